@@ -402,7 +402,7 @@ pub fn models(tier: Tier, seed: u64) -> Vec<Box<dyn DynModel>> {
 }
 
 pub fn describe(tier: Tier, r: &mut Report) {
-    r.rule = "initial states = honest time-lock ciphertexts (scheme x 2 keys x message lengths x identifiers {empty, 'id', 64 bytes}) opened with the whole-key signature over the identifier; one action: transport through a codec; a signature recombined from every subset (size >= 2) of (2,3) and (3,5) share sets; wrong identifier / wrong key / each other scheme / identity signature; on the 5- and 33-byte tamper bases every single-bit flip of the serialized ciphertext, every truncation of w, w + 1 byte, other labels, u+G, u=identity. Oracle: never a different message; equals the reference open; header or authenticated-prefix changes give nothing; padding changes give the message or nothing (recorded)".into();
+    r.rule = "initial states = honest time-lock ciphertexts (scheme x 2 keys x message lengths x identifiers {empty, 'id', 64 bytes}) opened with the whole-key signature over the identifier; one action: transport through a codec; a signature recombined from every subset (size >= 2) of (2,3) and (3,5) share sets; wrong identifier / wrong key / each other scheme / identity signature; on the 5- and 33-byte tamper bases every single-bit flip of the serialized ciphertext, every truncation of w, w + 1 byte, other labels, u+G, u=identity, and the compensating pairs (u a^-1, signature a) for a = -1, 2, 3 that leave the pairing value unchanged. Oracle: never a different message; equals the reference open; header or authenticated-prefix changes give nothing; padding changes give the message or nothing (recorded)".into();
     r.deviation_bound_completed = "1".into();
     r.alphabet.insert("lengths".into(), serde_json::json!(lens_for(tier)));
 }
